@@ -2,7 +2,9 @@
 
 from hypothesis import strategies as st
 
-from lunaverif.core import Sub, Result, fail
+from amaranth import Signal
+
+from lunaverif.core import Sub, Result, fail, HarnessError
 from lunaverif.gen import long_lists, weighted
 from lunaverif.simkit import CycleHarness
 from lunaverif.ref import g3_usb3 as u3
@@ -16,6 +18,9 @@ ASSUMPTIONS = [
     "a producer keeps a word (and the scrambler's enable) stable while it is stalled (valid & ~ready)",
     "the 'clear' strobe (driven by no in-repo caller) is only generated in cycles without a valid word",
     "keystream byte i of a word belongs to symbol i (symbol 0 = bits 7:0, first on the wire)",
+    "physical-layer sub: the link layer asserts can_send_skp only over logical-idle words (00000000/0000), never "
+    "offers an all-SKP word itself, and leaves an idle slot of >= 2 words after at most 200 words of traffic (so the "
+    "inserter's backlog stays within its 4 ordered sets); enable_scrambling is constant within a case",
 ]
 
 # -------------------------------------------------------------------------------------------------
@@ -440,4 +445,146 @@ class RoundTripSub(Sub):
         return Result(ok=True, nontrivial=nt, labels=tuple(sorted(labels)))
 
 
-SUBS = [LfsrSub(), ScramblerSub(), RoundTripSub()]
+# =================================================================================================
+#  scrambler + SKP inserter as wired inside the real USB3PhysicalLayer (anchor physical/layer.py)
+# =================================================================================================
+class _StubPHY:
+    """PIPE PHY signal container for USB3PhysicalLayer."""
+
+    def __init__(self):
+        from luna.gateware.interface.pipe import TXDeemphMode
+        widths = dict(reset=1, phy_status=1, phy_mode=2, rate=1, elas_buf_mode=1, tx_swing=1, tx_margin=3,
+                      tx_ones_zeros=1, rx_termination=1, rx_polarity=1, rx_eq_training=1, power_present=1, rx_status=3,
+                      power_down=2, tx_data=32, tx_datak=4, rx_data=32, rx_datak=4, rx_elec_idle=1, tx_elec_idle=1,
+                      tx_detrx_lpbk=1)
+        for n, w in widths.items():
+            setattr(self, n, Signal(w, name="c31phy_" + n))
+        self.tx_deemph = Signal(TXDeemphMode)
+
+
+SKP_WORD = (u3.SKP * 0x01010101, 0xF)
+_L_IDLE = [2, 3, 5, 9, 20, 60, 150, 300]
+_L_BURST = [1, 2, 4, 9, 30, 90, 180, 200]
+# burst word shapes (decode_word): mostly data and D/K mixes, some COM-first heads, idle look-alikes, ordered sets
+_L_SHAPES = [1, 1, 1, 1, 1, 0, 0, 0, 5, 2, 3, 7, 9, 8, 6, 1]
+
+
+def _mix(bits, j):
+    x = (bits + 0x9E3779B97F4A7C15 * (j + 1)) & 0xFFFFFFFFFFFFFFFF
+    x ^= x >> 31
+    x = (x * 0xBF58476D1CE4E5B9) & 0xFFFFFFFFFFFFFFFF
+    return x ^ (x >> 29)
+
+
+def layer_stream(case):
+    """-> list of (data, ctrl, can_send_skp) words offered to USB3PhysicalLayer.sink, one per cycle.
+    segs = [kind, n, bits]: kind 0 logical idle with can_send_skp=1, kind 1 traffic burst (can_send_skp=0),
+    kind 2 logical idle with can_send_skp=0.  Every burst is followed by an idle slot of >= 2 words."""
+    words = [(0, 0, 0), (0, 0, 0)]          # reset settling: the first word is offered twice (accepted once)
+    for kind, n, bits in case["segs"]:
+        if kind == 0:
+            words += [(0, 0, 1)] * _L_IDLE[n % len(_L_IDLE)]
+        elif kind == 2:
+            words += [(0, 0, 0)] * _L_IDLE[n % 5]
+        else:
+            for j in range(_L_BURST[n % len(_L_BURST)]):
+                x = _mix(bits, j)
+                d, c = decode_word(_L_SHAPES[x & 15], (x >> 8) & ((1 << 36) - 1))
+                if (d, c) == SKP_WORD:
+                    d, c = (x >> 20) & 0xFFFFFFFF, 0        # the link layer never offers SKP sets itself
+                words.append((d, c, 0))
+            words += [(0, 0, 1)] * 2
+    words += [(0, 0, 1)] * 6
+    return words
+
+
+_LSEG = st.tuples(weighted([(0, 5), (1, 5), (2, 1)]), st.integers(0, 7), st.integers(0, (1 << 48) - 1))
+
+
+class LayerTxSub(Sub):
+    name = "layer-tx"
+    budget = {"quick": 700, "thorough": 12000}
+    rule = ("real USB3PhysicalLayer (stub PIPE PHY): link streams of traffic bursts (1..200 words: data, D/K mixes, "
+            "COM-first heads, COM in later symbols, idle look-alikes, ordered-set words) and logical-idle runs of 2..300 "
+            "words with can_send_skp on the filler (or off), long enough for SKP pairs to become due several times; "
+            "oracle = what a receiver recovers: PHY tx words that are SKP sets on a can_send_skp slot are dropped, every "
+            "other wire word must equal the offered word with its data symbols XORed with the bit-serial reference "
+            "keystream at the position defined by the statement (one step per word that reached the wire, none for a "
+            "word replaced by SKP sets, restart after a COM-first word) and its control symbols unchanged; "
+            "enable_scrambling constant per case (on 5/6); non-trivial = scrambling on, >= 2 SKP words inserted, each "
+            "of two of them followed by a word carrying a data symbol before any COM-first restart")
+    shrink_budget = 200
+
+    def setup(self):
+        self.h = None
+
+    def harness(self):
+        if self.h is None:
+            from luna.gateware.usb.usb3.physical.layer import USB3PhysicalLayer
+            phy = _StubPHY()
+            dut = USB3PhysicalLayer(phy=phy, sync_frequency=1e6)
+            ins = dict(data=dut.sink.data, ctrl=dut.sink.ctrl, cs=dut.can_send_skp, en=dut.enable_scrambling)
+            outs = dict(txd=phy.tx_data, txk=phy.tx_datak, ready=dut.sink.ready)
+            self.h = CycleHarness(dut, ins, outs, domain="ss", extra_clocks={"sync": 1e-2})
+        return self.h
+
+    def strategy(self):
+        return st.fixed_dictionaries(dict(
+            enable=weighted([(1, 5), (0, 1)]),
+            segs=long_lists(_LSEG, min_size=1, max_size=20, average=8).map(lambda l: [list(x) for x in l]),
+        ))
+
+    def run(self, case):
+        words = layer_stream(case)
+        en = case["enable"]
+        script = [dict(data=d, ctrl=c, cs=cs, en=en) for d, c, cs in words]
+        trace = self.harness().run_script(script, tail=1)
+        if [o.ready for o in trace[:3]] != [0, 1, 1] or any(not o.ready for o in trace[1:]):
+            raise HarnessError(f"sink.ready pattern {[o.ready for o in trace[:6]]}: the one-word-per-cycle alignment "
+                               f"this sub relies on does not hold")
+        state = u3.LFSR_INIT
+        skp_words = 0
+        pending = False          # a SKP word was inserted and no later word has been checked yet
+        data_after_skp = 0
+        restarts = 0
+        for t in range(1, len(words)):
+            d, c, cs = words[t]
+            o = trace[t + 1]
+            if cs and (o.txd, o.txk) == SKP_WORD:
+                skp_words += 1       # filler replaced on the wire: not transferred, takes no key
+                pending = True
+                continue
+            key = u3.lfsr_word(state)[0] if en else 0
+            exp = u3.scramble_word(d, c, key)
+            if (o.txd, o.txk) != (exp, c):
+                s1 = u3.lfsr_word(state)[1]
+                s2 = u3.lfsr_word(s1)[1]
+                if o.txk != c:
+                    sig = "layer-ctrl-changed"
+                elif en and any(o.txd == u3.scramble_word(d, c, u3.lfsr_word(x)[0]) for x in (s1, s2, u3.LFSR_INIT)):
+                    sig = "layer-keystream-out-of-step-after-skp" if pending else "layer-keystream-out-of-step"
+                else:
+                    sig = "layer-word-corrupted"
+                return fail(f"USB3PhysicalLayer enable_scrambling={en}: word offered in cycle {t} {d:#010x}/{c:04b} "
+                            f"(can_send_skp={cs}) expected on the wire {exp:#010x}/{c:04b} (key {key:#010x}, LFSR "
+                            f"{state:#06x}) got {o.txd:#010x}/{o.txk:04b}; {skp_words} SKP words inserted so far, "
+                            f"{'directly after a SKP word' if pending else 'no SKP word just before'}; a receiver "
+                            f"descrambles it to {u3.scramble_word(o.txd, o.txk, key):#010x}", signature=sig)
+            com_first = (d & 0xFF) == u3.COM and (c & 1)
+            if pending and not com_first and c != 0xF:
+                data_after_skp += 1
+            pending = False
+            if com_first:
+                state = u3.LFSR_INIT
+                restarts += 1
+            else:
+                state = u3.lfsr_word(state)[1]
+        labels = {"enabled" if en else "disabled", f"skp-words={min(skp_words, 5)}",
+                  f"data-after-skp={min(data_after_skp, 3)}", "len>=1000" if len(words) >= 1000 else "len<1000"}
+        if restarts:
+            labels.add("com-restart")
+        nt = bool(en) and skp_words >= 2 and data_after_skp >= 2
+        return Result(ok=True, nontrivial=nt, labels=tuple(sorted(labels)))
+
+
+SUBS = [LfsrSub(), ScramblerSub(), RoundTripSub(), LayerTxSub()]
